@@ -231,7 +231,7 @@ def run(tier, t0):
         tasks.append((work_paths, ch))
     rs = list(range(0, 30))
     for kind, lon, lat in geo.special_sites(tier, common.seed()):
-        if kind in ('pole', 'antimeridian') or tier == 'thorough':
+        if kind in ('pole', 'antimeridian', 'lon_wrap') or tier == 'thorough':
             tasks.append((work_site, (kind, lon, lat, rs)))
         else:
             tasks.append((work_site, (kind, lon, lat, rs[common.seed() % 3::3])))
@@ -242,7 +242,7 @@ def run(tier, t0):
     for part in common.pmap(_dispatch, tasks, chunksize=2):
         acc.merge(part)
     acc.sample({'cell': hex(rm.encode((9, 1, 2))), 'configs': [c for c, _ in CONFIGS[:4]] + ['... 25 in total']})
-    rule = (f'every cell of resolutions 0..{R}, G1[basic] digit-pattern cells and the cells around both poles, 24 antimeridian points and the 62 frame points at resolutions up to 29, each x 25 option '
+    rule = (f'every cell of resolutions 0..{R}, G1[basic] digit-pattern cells and the cells around both poles, 24 antimeridian points, the points on the meridian where the raw longitude of to_lonlat wraps (discovered by scanning it) and the 62 frame points at resolutions up to 29, each x 25 option '
             'combinations (options=None, closed_ring in {omitted, True, False} x segments in {omitted, None, "auto" (as the literal and as an equal string built at run time), 1, 2, 3, 7, 16}; at resolutions 26..29 also segments 32 and 64); a transition is one cell_to_boundary call; non-trivial = cells')
     return common.finish(PID, LEVEL, tier, acc, t0, rule, [
         'simple + counter-clockwise is decided in the gnomonic plane at the ring centroid (great-circle arcs are straight there): O(n) bearing test, exact O(n^2) crossing test + signed area before reporting',
